@@ -37,6 +37,9 @@ type Ptr struct {
 	elem   types.Type // static element type of a nil pointer, when known
 }
 
+// Poison stands for a value that does not exist on the current path; using it is an error.
+type Poison struct{ msg string }
+
 // Fwd is the content of a cell whose object has moved into its type's symbolic
 // region (it was stored into a symbolic array of pointers): every access
 // through the old address goes to the region object.
